@@ -79,6 +79,10 @@ fn check_trivial(v: &[u8], accept: bool) -> Option<serde_json::Value> {
     let got = match catch(|| trivial_merge(v, scg).copied()) { Ok(g) => g, Err(p) => return Some(json!({"observed": format!("panic: {p}"), "required": "no panic"})) };
     let want = rule(v, accept);
     if got != want { return Some(json!({"observed": format!("{got:?}"), "required": format!("{want:?} (cancellation rule)")})); }
+    // Merge::resolve_trivial must be the same rule
+    let vv = v.to_vec();
+    let got2 = match catch(move || Merge::from_vec(vv).resolve_trivial(scg).copied()) { Ok(g) => g, Err(p) => return Some(json!({"observed": format!("Merge::resolve_trivial panic: {p}"), "required": "no panic"})) };
+    if got2 != want { return Some(json!({"observed": format!("Merge::resolve_trivial -> {got2:?}"), "required": format!("{want:?} (cancellation rule)")})); }
     None
 }
 
